@@ -3,7 +3,7 @@
     No Extract Constant / Extract Inductive directive of our own. *)
 Require Extraction.
 Require Import ExtrOcamlBasic.
-From ZV Require Import Base.Bytes Base.Res Spec.Rfc23 Model.Codec Spec.Stream Spec.Compat Model.Handshake Model.World Model.FairQueue Model.TrySend Model.Proxy Model.Endpoint.
+From ZV Require Import Base.Bytes Base.Res Spec.Rfc23 Model.Codec Spec.Stream Spec.Compat Model.Handshake Model.World Model.FairQueue Model.TrySend Model.Proxy Model.Endpoint Model.Runtime.
 Extraction Language OCaml.
 Separate Extraction
   Bytes.be Bytes.of_be Bytes.lenN Bytes.is_prefix
@@ -17,4 +17,5 @@ Separate Extraction
   FairQueue.fq0 FairQueue.step FairQueue.poll FairQueue.drain FairQueue.left_items FairQueue.some_registered_ready
   TrySend.try_sends TrySend.sink0 TrySend.accepted Codec.encode_frames
   Proxy.pstate0 Proxy.proxy_settle Proxy.proxy_iter
-  Endpoint.parse_endpoint Endpoint.fmt_endpoint.
+  Endpoint.parse_endpoint Endpoint.fmt_endpoint
+  Runtime.brun Runtime.bstate0 Runtime.drop_socket Runtime.conn_open Runtime.listening.
